@@ -334,14 +334,19 @@ void reb_simulation_remove_all_particles(struct reb_simulation* const r){
 }
 
 int reb_simulation_remove_particle(struct reb_simulation* const r, int index, int keep_sorted){
+	if (index >= (int)r->N || index < 0){
+		char warning[1024];
+        sprintf(warning, "Index %d passed to particles_remove was out of range (N=%d).  Did not remove particle.", index, r->N);
+		reb_simulation_error(r, warning);
+		return 0;
+	}
     if (r->integrator == REB_INTEGRATOR_MERCURIUS){
         keep_sorted = 1; // Force keep_sorted for hybrid integrator
         struct reb_integrator_mercurius* rim = &(r->ri_mercurius);
         if (rim->N_allocated_dcrit>0 && index<(int)rim->N_allocated_dcrit){
-            for (unsigned int i=0;i<r->N-1;i++){
-                if ((int)i>=index){
-                    rim->dcrit[i] = rim->dcrit[i+1];
-                }
+            // dcrit only has entries for the particles present at the last step
+            for (unsigned int i=index;i+1<r->N && i+1<rim->N_allocated_dcrit;i++){
+                rim->dcrit[i] = rim->dcrit[i+1];
             }
         }
         reb_integrator_ias15_reset(r);
@@ -400,12 +405,6 @@ int reb_simulation_remove_particle(struct reb_simulation* const r, int index, in
         }
     }
 
-	if (index >= (int)r->N || index < 0){
-		char warning[1024];
-        sprintf(warning, "Index %d passed to particles_remove was out of range (N=%d).  Did not remove particle.", index, r->N);
-		reb_simulation_error(r, warning);
-		return 0;
-	}
 	if (r->N==1){
 	    r->N = 0;
         if(r->free_particle_ap){
